@@ -537,6 +537,18 @@ theorem DBLMUL_generic_generated_correct {a : F} (h2 : (2 : F) ≠ 0) (curve : E
   rw [SqiProofs.LadderGen.DBLMUL_generic_eq]
   exact jacDBLMUL_correct h2 curve hA (64 * size) k l P Q JP JQ hP hQ hadd hg
 
+theorem ec_dbl_iter_generated_correct {a : F} (h2 : (2 : F) ≠ 0) (res : EcPoint F) (n : Nat) (curve : EcCurve F)
+    (hA : curve.A = a * curve.C) (hC : curve.C ≠ 0)
+    (hflag : curve.is_A24_computed_and_normalized ≠ 0 → IsA24 a curve.A24.x curve.A24.z)
+    (Pt : (mont a).Point) (P : EcPoint F) (hP : IsX Pt P.x P.z) :
+    (0 < n → IsX (2 ^ n • Pt) (SqiGen.ec_dbl_iter res n curve P).1.x (SqiGen.ec_dbl_iter res n curve P).1.z) ∧
+    (n = 0 → (SqiGen.ec_dbl_iter res n curve P).1 = res) := by
+  rw [SqiProofs.LadderGen.ec_dbl_iter_eq]
+  have := ec_dbl_iter_correct h2 res (n : Int) curve hA hC hflag Pt P hP
+  refine ⟨fun hn => ?_, fun hn => this.2 (by omega)⟩
+  have := this.1 (by omega)
+  simpa using this
+
 /-- `TPL` (naive tripling `ADD(DBL(P), P)`): `[3]P` in canonical form, unless `P` or the pair `([2]P, P)` hits the order-2
 doubling exception. -/
 theorem TPL_correct {a : F} (h2 : (2 : F) ≠ 0) (AC : EcCurve F) (hA : AC.A = a) (Pt : (mont a).Point) (J : JacPoint F)
